@@ -4,6 +4,9 @@
 package pdnode_coord
 
 import (
+	"sync/atomic"
+	"time"
+
 	"github.com/youzan/ZanRedisDB/cluster"
 )
 
@@ -12,4 +15,141 @@ import (
 func VerifRebalancedPartitions(ns string, partitionNum int, replica int,
 	old [][]string, nodes map[string]cluster.NodeInfo, balanceVer string) ([][]string, *cluster.CoordErr) {
 	return getRebalancedNamespacePartitions(ns, partitionNum, replica, old, nodes, balanceVer)
+}
+
+// ---- property C18: drive the coordinator's decision methods without Start() ----
+//
+// The coordinator built here never runs its goroutines (no leadership watch, no tickers):
+// the harness calls the decision methods itself, one at a time, from one goroutine.
+
+// VerifNewPDCoordinator builds a coordinator that considers itself the pd leader, uses
+// the given register and may balance at any hour of the day.
+func VerifNewPDCoordinator(reg cluster.PDRegister, balanceVer string, autoBalance bool) *PDCoordinator {
+	n := &cluster.NodeInfo{NodeIP: "127.0.0.1", HttpPort: "1", RegID: 1}
+	coord := NewPDCoordinator("verif-cluster", n, &cluster.Options{
+		AutoBalanceAndMigrate: autoBalance,
+		BalanceStart:          0,
+		BalanceEnd:            24,
+		BalanceVer:            balanceVer,
+	})
+	coord.SetRegister(reg)
+	coord.leaderNode = coord.myNode
+	return coord
+}
+
+// VerifSetWaitIntervals replaces the two wall-clock waits of the migration logic
+// (how long a partition must have been seen failing before it is migrated, and how long a
+// replica must have been marked before it is dropped) and returns the previous values.
+func VerifSetWaitIntervals(migrate time.Duration, removing time.Duration) (time.Duration, time.Duration) {
+	om, or := waitMigrateInterval, waitRemoveRemovingNodeInterval
+	waitMigrateInterval = migrate
+	waitRemoveRemovingNodeInterval = removing
+	return om, or
+}
+
+// VerifSetDataNodes installs a new set of registered data nodes with exactly the state
+// changes handleDataNodes performs on the pd leader for one watch event (node table,
+// nodes epoch, stable node number, cluster-unstable flag). It does not schedule a check
+// pass; the harness decides when passes run.
+func (pdCoord *PDCoordinator) VerifSetDataNodes(nodes []cluster.NodeInfo) {
+	oldNodes := pdCoord.dataNodes
+	newNodes := make(map[string]cluster.NodeInfo)
+	for _, v := range nodes {
+		if v.LearnerRole == "" {
+			newNodes[v.GetID()] = v
+		}
+	}
+	pdCoord.nodesMutex.Lock()
+	pdCoord.dataNodes = newNodes
+	check := false
+	for oldID := range oldNodes {
+		if _, ok := newNodes[oldID]; !ok {
+			check = true
+		}
+	}
+	if check {
+		atomic.AddInt64(&pdCoord.nodesEpoch, 1)
+	}
+	if int32(len(pdCoord.dataNodes)) > atomic.LoadInt32(&pdCoord.stableNodeNum) {
+		atomic.StoreInt32(&pdCoord.stableNodeNum, int32(len(pdCoord.dataNodes)))
+	}
+	pdCoord.nodesMutex.Unlock()
+	for newID := range newNodes {
+		if _, ok := oldNodes[newID]; !ok {
+			check = true
+		}
+	}
+	if check {
+		atomic.AddInt64(&pdCoord.nodesEpoch, 1)
+		atomic.StoreInt32(&pdCoord.isClusterUnstable, 1)
+	}
+}
+
+// VerifCurrentNodesWithEpoch is the live set doCheckNamespaces hands to handleNamespaceMigrate.
+func (pdCoord *PDCoordinator) VerifCurrentNodesWithEpoch(tags map[string]interface{}) (map[string]cluster.NodeInfo, int64) {
+	return pdCoord.getCurrentNodesWithEpoch(tags)
+}
+
+// VerifDoCheckNamespaces runs one pass of the periodic namespace check.
+func (pdCoord *PDCoordinator) VerifDoCheckNamespaces(monitorChan chan struct{}, failedInfo *cluster.NamespaceNameInfo,
+	waitingMigrateNamespace map[string]map[int]time.Time, fullCheck bool) {
+	pdCoord.doCheckNamespaces(monitorChan, failedInfo, waitingMigrateNamespace, fullCheck)
+}
+
+func (pdCoord *PDCoordinator) VerifHandleNamespaceMigrate(nsInfo *cluster.PartitionMetaInfo,
+	currentNodes map[string]cluster.NodeInfo, currentNodesEpoch int64) *cluster.CoordErr {
+	return pdCoord.handleNamespaceMigrate(nsInfo, currentNodes, currentNodesEpoch)
+}
+
+func (pdCoord *PDCoordinator) VerifAddNamespaceToNode(nsInfo *cluster.PartitionMetaInfo, nid string) *cluster.CoordErr {
+	return pdCoord.addNamespaceToNode(nsInfo, nid)
+}
+
+func (pdCoord *PDCoordinator) VerifRemoveNamespaceFromNode(nsInfo *cluster.PartitionMetaInfo, nid string) *cluster.CoordErr {
+	return pdCoord.removeNamespaceFromNode(nsInfo, nid)
+}
+
+func (pdCoord *PDCoordinator) VerifRemoveNamespaceFromRemovings(nsInfo *cluster.PartitionMetaInfo) {
+	pdCoord.removeNamespaceFromRemovings(nsInfo)
+}
+
+// VerifBalanceWaiting reports whether a balance / node-removal round holds the balance flag.
+func (pdCoord *PDCoordinator) VerifBalanceWaiting() bool {
+	return atomic.LoadInt32(&pdCoord.balanceWaiting) != 0
+}
+
+// VerifRebalanceNamespace runs one balance round (the body of DoBalance's ticker case
+// after its leader/stability/auto-balance gates, which the caller must apply).
+func (pdCoord *PDCoordinator) VerifRebalanceNamespace(monitorChan chan struct{}) (bool, bool) {
+	return pdCoord.dpm.rebalanceNamespace(monitorChan)
+}
+
+// VerifProcessRemovingNodes runs one round of handleRemovingNodes' ticker case.
+func (pdCoord *PDCoordinator) VerifProcessRemovingNodes(monitorChan chan struct{}) {
+	pdCoord.nodesMutex.RLock()
+	removingNodes := make(map[string]string)
+	for nid, removeState := range pdCoord.removingNodes {
+		removingNodes[nid] = removeState
+	}
+	pdCoord.nodesMutex.RUnlock()
+	if len(removingNodes) == 0 {
+		return
+	}
+	pdCoord.processRemovingNodes(monitorChan, removingNodes)
+}
+
+// VerifRemovingNodes returns a copy of the nodes marked for decommissioning and their states.
+func (pdCoord *PDCoordinator) VerifRemovingNodes() map[string]string {
+	pdCoord.nodesMutex.RLock()
+	defer pdCoord.nodesMutex.RUnlock()
+	out := make(map[string]string, len(pdCoord.removingNodes))
+	for k, v := range pdCoord.removingNodes {
+		out[k] = v
+	}
+	return out
+}
+
+// VerifDecideUnwantedRaftNode is the surplus-replica choice of the check pass.
+func (pdCoord *PDCoordinator) VerifDecideUnwantedRaftNode(nsInfo *cluster.PartitionMetaInfo, currentNodes map[string]cluster.NodeInfo) string {
+	return pdCoord.dpm.decideUnwantedRaftNode(nsInfo, currentNodes)
 }
